@@ -10,10 +10,29 @@ import (
 )
 
 const (
-	repoDir  = "/repo"
 	verifDir = "/verif"
 	goBin    = "/root/go/pkg/mod/golang.org/toolchain@v0.0.1-go1.24.0.linux-amd64/bin/go"
 )
+
+// repoDir is the tree under test: /repo. Developer aid (used to try seeded changes in a scratch
+// worktree without touching /repo): VERIF_REPO names another checkout of the same repository; such
+// a run writes its replays under VERIF_OUT (default: a directory beside the worktree) and no evidence.
+var (
+	repoDir = "/repo"
+	outDir  = verifDir
+	devRun  = false
+)
+
+func init() {
+	if r := os.Getenv("VERIF_REPO"); r != "" && r != repoDir {
+		repoDir = filepath.Clean(r)
+		devRun = true
+		outDir = os.Getenv("VERIF_OUT")
+		if outDir == "" {
+			outDir = repoDir + ".verif-out"
+		}
+	}
+}
 
 // Spec describes the harnesses of one property (harness/<ID>/spec.json).
 type Spec struct {
